@@ -245,3 +245,24 @@ func (t *T) UnlockInHelper() {
 func (t *T) releaseForCaller() {
 	t.mu.Unlock()
 }
+
+// LatchThenWait: history facts across calls.  setLatch executes `t.closed = true` on every path before it returns
+// (its summary); waitAfter is called only after it, so "set:$.closed" is an ENTRY FACT of waitAfter and, through the
+// go statement, of its closure - although neither mentions the assignment lexically.
+func (t *T) LatchThenWait() {
+	t.setLatch()
+	t.waitAfter()
+}
+
+func (t *T) setLatch() {
+	t.mu.Lock()
+	t.closed = true
+	t.mu.Unlock()
+}
+
+func (t *T) waitAfter() {
+	t.wg.Wait()
+	go func() {
+		t.wg.Wait()
+	}()
+}
